@@ -342,6 +342,22 @@ func (w *World) RegistryKeys() []string {
 	return k
 }
 
+// Teardown closes the server and lets every timer that a closed session may
+// legitimately leave pending (polling's 30s close timeout, upgrade timeouts)
+// expire, so that whatever is still blocked afterwards is a genuine leftover.
+// (A bubble whose root goroutine exits while others are blocked is reported
+// as a deadlock even when those goroutines wait for a pending timer.)
+func (w *World) Teardown() {
+	w.Srv.Close()
+	Settle()
+	d := 31 * time.Second
+	if u := w.Opts.UpgradeTimeout() + time.Second; u > d {
+		d = u
+	}
+	time.Sleep(d)
+	Settle()
+}
+
 // Settle waits until every goroutine in the bubble is durably blocked.
 func Settle() { synctest.Wait() }
 
@@ -365,6 +381,7 @@ type ClientOpts struct {
 	J          string
 	Extra      http.Header
 	ExtraQuery string
+	NoEIO      bool // leave the EIO parameter out
 }
 
 func (o ClientOpts) eio() string {
@@ -395,6 +412,9 @@ type PollClient struct {
 
 func (c *PollClient) query(withSid bool) string {
 	q := "EIO=" + c.O.eio() + "&transport=polling"
+	if c.O.NoEIO {
+		q = "transport=polling"
+	}
 	if c.O.B64 {
 		q += "&b64=1"
 	}
